@@ -284,3 +284,154 @@ func isWord(s string) bool {
 	c := s[0]
 	return c == '_' || c >= 'a' && c <= 'z' || c >= 'A' && c <= 'Z' || c >= 0x80
 }
+
+// Clone deep-copies a term (terms produced by the grammar share sub-term pointers).
+func (t *Term) Clone() *Term {
+	cp := *t
+	cp.Args = make([]*Term, len(t.Args))
+	for i, a := range t.Args {
+		cp.Args[i] = a.Clone()
+	}
+	cp.Fields = append([]string(nil), t.Fields...)
+	return &cp
+}
+
+// OwnCols returns, for a term rendered by Render on a single line, the 0-based rune column that
+// positions each variable / call / member / subscript term: an identifier's first rune, the '(' of
+// a call written f(…) or o.f(…), the operator token of an operator application, the '?' of a
+// conditional, the '.' of a member access, the '[' of a subscript. The term must have unique
+// pointers (Clone it first).
+func (t *Term) OwnCols() (string, map[*Term]int) {
+	cols := map[*Term]int{}
+	var b colBuilder
+	t.renderCols(&b, cols)
+	return b.String(), cols
+}
+
+type colBuilder struct {
+	strings.Builder
+	n int
+}
+
+func (b *colBuilder) ws(s string) {
+	b.WriteString(s)
+	for range s {
+		b.n++
+	}
+}
+
+func (t *Term) renderCols(b *colBuilder, cols map[*Term]int) {
+	plain := func(x *Term) { var sb strings.Builder; x.render(&sb); b.ws(sb.String()) }
+	primary := func(x *Term) {
+		if x.Op == "num" {
+			b.ws("(")
+			x.renderCols(b, cols)
+			b.ws(")")
+			return
+		}
+		x.renderCols(b, cols)
+	}
+	list := func(xs []*Term) {
+		for i, a := range xs {
+			if i > 0 {
+				b.ws(", ")
+			}
+			a.renderCols(b, cols)
+		}
+	}
+	switch t.Op {
+	case "num", "str", "bool", "time":
+		plain(t)
+	case "var":
+		cols[t] = b.n
+		b.ws(t.Name)
+	case "list":
+		b.ws("[")
+		list(t.Args)
+		b.ws("]")
+	case "map":
+		if len(t.Args) == 0 {
+			b.ws("[:]")
+			return
+		}
+		b.ws("[")
+		for i := 0; i+1 < len(t.Args); i += 2 {
+			if i > 0 {
+				b.ws(", ")
+			}
+			t.Args[i].renderCols(b, cols)
+			b.ws(": ")
+			t.Args[i+1].renderCols(b, cols)
+		}
+		b.ws("]")
+	case "obj":
+		b.ws("{")
+		for i, a := range t.Args {
+			if i > 0 {
+				b.ws(", ")
+			}
+			b.ws(t.Fields[i] + ": ")
+			a.renderCols(b, cols)
+		}
+		b.ws("}")
+	case "group":
+		b.ws("(")
+		t.Args[0].renderCols(b, cols)
+		b.ws(")")
+	case "sub":
+		primary(t.Args[0])
+		cols[t] = b.n
+		b.ws("[")
+		t.Args[1].renderCols(b, cols)
+		b.ws("]")
+	case "mem":
+		primary(t.Args[0])
+		cols[t] = b.n
+		b.ws("." + t.Name)
+	case "call":
+		switch t.Not {
+		case "infix":
+			b.ws("(")
+			t.Args[0].renderCols(b, cols)
+			b.ws(" ")
+			cols[t] = b.n
+			b.ws(t.Name + " ")
+			t.Args[1].renderCols(b, cols)
+			b.ws(")")
+		case "prefix":
+			b.ws("(")
+			cols[t] = b.n
+			b.ws(t.Name)
+			if isWord(t.Name) {
+				b.ws(" ")
+			}
+			t.Args[0].renderCols(b, cols)
+			b.ws(")")
+		case "ternary":
+			b.ws("(")
+			t.Args[0].renderCols(b, cols)
+			b.ws(" ")
+			cols[t] = b.n
+			b.ws("? ")
+			t.Args[1].renderCols(b, cols)
+			b.ws(" : ")
+			t.Args[2].renderCols(b, cols)
+			b.ws(")")
+		case "method":
+			primary(t.Args[0])
+			b.ws("." + t.Name)
+			cols[t] = b.n
+			b.ws("(")
+			list(t.Args[1:])
+			b.ws(")")
+		default:
+			b.ws(t.Name)
+			cols[t] = b.n
+			b.ws("(")
+			list(t.Args)
+			b.ws(")")
+		}
+	default:
+		plain(t)
+	}
+}
